@@ -96,57 +96,89 @@ func (c *Ctx) NaturalTypes() []core.Ob {
 
 // SNBTLiteralWidths: each integer suffix is parsed with strconv.ParseInt of the
 // bit size of its tag (out-of-range literals are errors, not wrapped values).
+// parseIntWithVariableWidth: package nbt calls strconv.ParseInt(s, 10, bits) with a computed bit size.
+func (c *Ctx) parseIntWithVariableWidth() bool {
+	for _, fn := range c.Funcs() {
+		if !inPkgs(fn, "nbt") {
+			continue
+		}
+		for _, ci := range callsIn(fn, func(n string, _ *ssa.CallCommon) bool { return n == "strconv.ParseInt" }) {
+			a := ci.Common().Args
+			if len(a) == 3 {
+				if _, isConst := a[2].(*ssa.Const); !isConst {
+					if k, ok := constIntVal(a[1]); ok && k == 10 {
+						return true
+					}
+				}
+			}
+		}
+	}
+	return false
+}
+
 func (c *Ctx) SNBTLiteralWidths() []core.Ob {
 	fn := c.literalParser()
 	if fn == nil {
 		return []core.Ob{{Rule: "T-SNBTSUF", Key: "literal-widths", Status: core.Violated, Armed: true, Want: "the SNBT literal classifier exists", Got: "not found"}}
 	}
-	fd, pk := c.astFuncDecl(fn)
-	info := pk.TypesInfo
 	width := map[string]string{"TagByte": "8", "TagShort": "16", "TagInt": "32", "TagLong": "64"}
 	var obs []core.Ob
+	fns, _, _ := c.literalParsers()
 	seen := map[string]bool{}
-	ast.Inspect(fd.Body, func(n ast.Node) bool {
-		cc, ok := n.(*ast.CaseClause)
-		if !ok || len(cc.Body) < 2 {
-			return true
-		}
-		ret, ok := cc.Body[len(cc.Body)-1].(*ast.ReturnStmt)
-		if !ok || len(ret.Results) == 0 {
-			return true
-		}
-		tag, _, ok := tagConst(info, ret.Results[0])
-		if !ok || width[tag] == "" || seen[tag] {
-			return true
-		}
-		seen[tag] = true
-		o := core.Ob{Rule: "T-SNBTSUF", Key: "literal-width:" + tag, Pos: c.P.Pos(cc.Pos()), Func: core.FnName(fn), Armed: true, Status: core.OK,
-			Want: "a " + tag + " literal is parsed by strconv.ParseInt(s, 10, " + width[tag] + "): a value outside the tag's range is an error"}
-		okParse := false
-		ast.Inspect(cc, func(m ast.Node) bool {
-			call, ok := m.(*ast.CallExpr)
-			if !ok {
+	for _, fn := range fns {
+		fd, pk := c.astFuncDecl(fn)
+		info := pk.TypesInfo
+		fd = normDecl(pk, fd)
+		ast.Inspect(fd.Body, func(n ast.Node) bool {
+			cc, ok := n.(*ast.CaseClause)
+			if !ok || len(cc.Body) < 1 {
 				return true
 			}
-			fo := calleeObj(info, call)
-			if fo == nil || fo.Pkg() == nil || fo.Pkg().Path() != "strconv" {
+			ret, ok := cc.Body[len(cc.Body)-1].(*ast.ReturnStmt)
+			if !ok || len(ret.Results) == 0 {
 				return true
 			}
-			if fo.Name() == "ParseInt" && len(call.Args) == 3 {
-				if tv, ok := info.Types[call.Args[2]]; ok && tv.Value != nil && tv.Value.ExactString() == width[tag] {
-					if b, ok := info.Types[call.Args[1]]; ok && b.Value != nil && b.Value.ExactString() == "10" {
+			tag, _, ok := tagConst(info, ret.Results[0])
+			if !ok || width[tag] == "" || seen[tag] {
+				return true
+			}
+			seen[tag] = true
+			o := core.Ob{Rule: "T-SNBTSUF", Key: "literal-width:" + tag, Pos: c.P.Pos(cc.Pos()), Func: core.FnName(fn), Armed: true, Status: core.OK,
+				Want: "a " + tag + " literal is parsed by strconv.ParseInt(s, 10, " + width[tag] + "): a value outside the tag's range is an error"}
+			okParse := false
+			ast.Inspect(cc, func(m ast.Node) bool {
+				call, ok := m.(*ast.CallExpr)
+				if !ok {
+					return true
+				}
+				fo := calleeObj(info, call)
+				if fo == nil || fo.Pkg() == nil || fo.Pkg().Path() != "strconv" {
+					return true
+				}
+				if fo.Name() == "ParseInt" && len(call.Args) == 3 {
+					if tv, ok := info.Types[call.Args[2]]; ok && tv.Value != nil && tv.Value.ExactString() == width[tag] {
+						if b, ok := info.Types[call.Args[1]]; ok && b.Value != nil && b.Value.ExactString() == "10" {
+							okParse = true
+						}
+					}
+				}
+				return true
+			})
+			// or the clause hands the width back as a constant (return TagByte, 8, true) for a ParseInt(s, 10, bits)
+			if !okParse {
+				for _, r := range ret.Results[1:] {
+					if tv, ok := info.Types[r]; ok && tv.Value != nil && tv.Value.ExactString() == width[tag] && c.parseIntWithVariableWidth() {
 						okParse = true
 					}
 				}
 			}
+			if !okParse {
+				o.Status, o.Got = core.Violated, "not parsed with ParseInt(s, 10, "+width[tag]+"): out-of-range text is accepted and wraps"
+			}
+			obs = append(obs, o)
 			return true
 		})
-		if !okParse {
-			o.Status, o.Got = core.Violated, "not parsed with ParseInt(s, 10, "+width[tag]+"): out-of-range text is accepted and wraps"
-		}
-		obs = append(obs, o)
-		return true
-	})
+	}
 	if len(obs) < 4 {
 		obs = append(obs, core.Ob{Rule: "T-SNBTSUF", Key: "literal-width:count", Status: core.Violated, Armed: true, Want: "4 integer literal clauses", Got: fmt.Sprint(len(obs))})
 	}
